@@ -150,8 +150,14 @@ type Desc struct {
 	// deps cases (K == "deps"): earlier result k was produced from nothing (-1)
 	// or from earlier result Pre[k]; none of them is compiled on the worker,
 	// which is a fresh machine reached through the executor's compile.
-	Pre  []int  `json:"pre,omitempty"`
-	Kind string `json:"kind"`
+	Pre []int `json:"pre,omitempty"`
+	// registry cases: K == "reg" with Which "static" (the Funcs created before
+	// main) or "all"; K == "regpair" compares the registries LF and RF (indices
+	// into the static Funcs with pairwise distinct creation sites)
+	Which string `json:"which,omitempty"`
+	LF    []int  `json:"lf,omitempty"`
+	RF    []int  `json:"rf,omitempty"`
+	Kind  string `json:"kind"`
 }
 
 // ---------------------------------------------------------------- (a) diff
@@ -228,12 +234,32 @@ func funcFor(params []string) *bigslice.FuncValue {
 		s := bigslice.Const(1+w%3, []int{1, 2, 3, 4, 5, 6})
 		return []reflect.Value{reflect.ValueOf(&s).Elem()}
 	})
+	note(here(1))
 	f := bigslice.Func(fn.Interface())
 	funcCache[key] = f
 	return f
 }
 
-var fConst = bigslice.Func(func(n int) bigslice.Slice { return bigslice.Const(n, []int{1, 2, 3}) })
+var fConst = func() *bigslice.FuncValue {
+	note(here(1))
+	return bigslice.Func(func(n int) bigslice.Slice { return bigslice.Const(n, []int{1, 2, 3}) })
+}()
+
+// Funcs that exist only to populate the registry at distinct, known lines.
+var (
+	fReg1 = func() *bigslice.FuncValue {
+		note(here(1))
+		return bigslice.Func(func() bigslice.Slice { return bigslice.Const(2, []string{"a", "b"}) })
+	}()
+	fReg2 = func() *bigslice.FuncValue {
+		note(here(1))
+		return bigslice.Func(func(a, b int) bigslice.Slice { return bigslice.Const(1, []int{a, b}) })
+	}()
+	fReg3 = func() *bigslice.FuncValue {
+		note(here(1))
+		return bigslice.Func(func(s []string) bigslice.Slice { return bigslice.Const(1, s) })
+	}()
+)
 
 // producers of the deps cases: each records (tag, slice it returned), on the
 // driver and again on the worker, so that a worker-local Result is recognised
@@ -255,12 +281,18 @@ func recordProduced(tag int, s bigslice.Slice) bigslice.Slice {
 	return s
 }
 
-var fProd = bigslice.Func(func(tag int) bigslice.Slice {
-	return recordProduced(tag, bigslice.Const(1+tag%3, []int{1, 2, 3}))
-})
-var fNest = bigslice.Func(func(tag int, r *exec.Result) bigslice.Slice {
-	return recordProduced(tag, bigslice.Map(r, func(x int) int { return x + 1 }))
-})
+var fProd = func() *bigslice.FuncValue {
+	note(here(1))
+	return bigslice.Func(func(tag int) bigslice.Slice {
+		return recordProduced(tag, bigslice.Const(1+tag%3, []int{1, 2, 3}))
+	})
+}()
+var fNest = func() *bigslice.FuncValue {
+	note(here(1))
+	return bigslice.Func(func(tag int, r *exec.Result) bigslice.Slice {
+		return recordProduced(tag, bigslice.Map(r, func(x int) int { return x + 1 }))
+	})
+}()
 
 func producedTag(r *exec.Result) (tag int, ok bool) {
 	defer func() {
@@ -829,6 +861,119 @@ func genDeps(r *vf.Rand) Desc {
 	return d
 }
 
+// nStatic is the number of Funcs this program had created when main started.
+var nStatic int
+
+// distinctStatic lists the static Funcs (indices into regSites) by first
+// occurrence of each creation site.
+func distinctStatic() []int {
+	seen := map[string]bool{}
+	var idx []int
+	for k := 0; k < nStatic && k < len(regSites); k++ {
+		if !seen[regSites[k]] {
+			seen[regSites[k]] = true
+			idx = append(idx, k)
+		}
+	}
+	return idx
+}
+
+func runReg(d Desc) (term string, observed interface{}) {
+	sites, obs := regSites, ownLocations()
+	if d.Which == "static" {
+		sites = regSites[:nStatic]
+		if len(obs) > nStatic {
+			obs = obs[:nStatic]
+		}
+	}
+	return vf.App("CReg", strList(sites), strList(obs)), map[string]interface{}{"n": len(obs), "first": first(obs, 4)}
+}
+
+func first(xs []string, n int) []string {
+	if len(xs) > n {
+		return xs[:n]
+	}
+	return xs
+}
+
+// runRegPair builds two registries out of real registrations and runs the real
+// FuncLocationsDiff on their real locations.
+func runRegPair(d Desc) (term string, observed interface{}) {
+	idx := distinctStatic()
+	own := ownLocations()
+	var sites []string
+	for _, k := range idx {
+		sites = append(sites, regSites[k])
+	}
+	locs := func(fs []int) []string {
+		out := make([]string, len(fs))
+		for i, f := range fs {
+			out[i] = "?"
+			if f >= 0 && f < len(idx) && idx[f] < len(own) {
+				out[i] = own[idx[f]]
+			}
+		}
+		return out
+	}
+	ll, rl := locs(d.LF), locs(d.RF)
+	var (
+		lines    []string
+		panicked bool
+	)
+	func() {
+		defer func() {
+			if recover() != nil {
+				panicked = true
+			}
+		}()
+		lines = bigslice.FuncLocationsDiff(append([]string{}, ll...), append([]string{}, rl...))
+	}()
+	obs := "DObsPanic"
+	if !panicked {
+		obs = vf.App("DObs", vf.Bool(lines == nil), strList(lines))
+	}
+	return vf.App("CRegPair", strList(sites), vf.IntList(d.LF), vf.IntList(d.RF), strList(ll), strList(rl), obs), lines
+}
+
+// genRegPairs: the identity, every swap of two Funcs, one Func replaced by
+// another (equal length), rotations, a dropped and an added Func, random
+// permutations.
+func genRegPairs(r *vf.Rand, nrand int) []Desc {
+	n := len(distinctStatic())
+	id := make([]int, n)
+	for i := range id {
+		id[i] = i
+	}
+	cp := func() []int { return append([]int{}, id...) }
+	var ds []Desc
+	add := func(rf []int) { ds = append(ds, Desc{K: "regpair", LF: cp(), RF: rf, Kind: "reg/pair"}) }
+	add(cp())
+	for i := 0; i < n; i++ {
+		for j := i + 1; j < n; j++ {
+			p := cp()
+			p[i], p[j] = p[j], p[i]
+			add(p)
+		}
+	}
+	for i := 0; i < n; i++ {
+		p := cp()
+		p[i] = (i + 1) % n // a different Func at index i, same length
+		add(p)
+	}
+	add(append(cp()[1:], 0))
+	add(cp()[:n-1])
+	add(append(cp(), 0))
+	for k := 0; k < nrand; k++ {
+		p := cp()
+		for i := n - 1; i > 0; i-- {
+			j := r.Intn(i + 1)
+			p[i], p[j] = p[j], p[i]
+		}
+		add(p)
+	}
+	return ds
+}
+
 // invSig names the reason a case can fail for: an untyped nil argument for a
 // non-interface parameter, which the code accepts but does not ship (the only
 // listed finding; typed nil pointers and nil *Results must fail with an error).
@@ -1131,11 +1276,14 @@ func fixedInv() []Desc {
 }
 
 func main() {
+	nStatic = len(regSites)
 	opts := vf.ParseFlags()
 	out := &vf.Output{ID: "C16", Import: "BS.C16.Corr", Prelude: "From Coq Require Import String.\n",
 		Rule: "diff: pairs of location lists (all pairs over {a,b,c} up to a length bound, sampled pairs up to length 4, random similar lists up to length 12); " +
 			"non-trivial = the returned diff has both kept and +/- lines. inv: parameter/argument lists (0-4) over 13 concrete types and 3 interface types, " +
-			"0-2 earlier Results; non-trivial = well-typed with an interface parameter, a Result or a nil argument. Distinct by case term.",
+			"0-2 earlier Results; non-trivial = well-typed with an interface parameter, a Result or a nil argument. " +
+			"registry: bigslice.FuncLocations() against the creation sites this program recorded for every Func it registered (package-level, through helpers in another file, dynamically), " +
+			"and the real FuncLocationsDiff on registries built from these real registrations (every swap, every single replacement, rotations, random permutations). Distinct by case term.",
 		Extra: map[string]interface{}{}}
 	var descs []Desc
 	if opts.Replay != "" {
@@ -1172,6 +1320,12 @@ func main() {
 		for i := 0; i < nlong*opts.Scale; i++ {
 			descs = append(descs, genLongDiff(root.Split()))
 		}
+		descs = append(descs, Desc{K: "reg", Which: "static", Kind: "reg/locations"})
+		nperm := 10
+		if thorough {
+			nperm = 200
+		}
+		descs = append(descs, genRegPairs(root.Split(), nperm*opts.Scale)...)
 		descs = append(descs, fixedInv()...)
 		descs = append(descs, fixedDeps()...)
 		ndeps := 12
@@ -1185,8 +1339,17 @@ func main() {
 			descs = append(descs, genInv(root.Split()))
 		}
 	}
+	if opts.Replay == "" {
+		descs = append(descs, Desc{K: "reg", Which: "all", Kind: "reg/locations"})
+	}
 	for _, d := range descs {
 		switch d.K {
+		case "reg":
+			term, obs := runReg(d)
+			out.Add(vf.Case{Term: term, Desc: d, Sig: "registry", Nontriv: vf.Hash(term), Kind: "reg/locations", Observed: obs})
+		case "regpair":
+			term, obs := runRegPair(d)
+			out.Add(vf.Case{Term: term, Desc: d, Sig: "registry", Nontriv: vf.Hash(term), Kind: "reg/pair", Observed: obs})
 		case "diff":
 			term, obs, nt := runDiff(d)
 			nontriv := ""
